@@ -29,6 +29,11 @@ check('C03', level='model_checking', steps=[dict(src='drv/local.c', variant='pla
       rule=RULE_LOCAL, deadline=dict(quick=240, thorough=3000),
       mc_keys=dict(states='ref_states', transitions='ref_transitions'))
 
+check('C04', level='exploration', steps=[dict(src='drv/c04.c', variant='plain', name='domain')],
+      rule=("every string is generated once per layer (L1 odometer over 8 classes; L2 base x position x byte; L3 length generators); "
+            "non-trivial = L1 strings of >= 2 bytes containing a dot or hyphen (the structure rules are exercised); counted by the driver"),
+      deadline=dict(quick=240, thorough=3000))
+
 # ---------------------------------------------------------------------------
 def load_findings():
     p = os.path.join(V, 'known_findings.json')
